@@ -72,8 +72,8 @@ Proof.
     apply andb_prop in Hn as [_ Hn]. destruct eof.
     + specialize (He eq_refl). discriminate.
     + cbn [app]. apply IH; [exact Hn|discriminate].
-  - apply andb_prop in Hn as [_ Hn]. repeat split; try discriminate; auto.
-    intros E. specialize (He E). apply andb_prop in He as [_ He]. exact He.
+  - apply andb_prop in Hn as [_ Hn]. split; [discriminate|]. split; [reflexivity|]. split; [exact Hn|].
+    intros E. specialize (He E). cbn in He. exact He.
   - apply andb_prop in Hn as [_ Hn]. apply IH; [exact Hn|].
     intros E. specialize (He E). apply andb_prop in He as [_ He]. exact He.
   - discriminate.
@@ -135,3 +135,73 @@ Proof. intros H. unfold direct_recv. apply firstn_all2. exact H. Qed.
 Definition awrite (frame : list N) : list item * nat := ([IBytes frame], length frame).
 Theorem awrite_one_item_whole_frame frame : fst (awrite frame) = [IBytes frame] /\ snd (awrite frame) = length frame.
 Proof. split; reflexivity. Qed.
+
+(* ---------------- UDP: a datagram is received into a scratch array of [scratch] bytes ---------------- *)
+(* what the adaptor obtains from recv(&mut [0u8; scratch]): the datagram cut to the scratch size *)
+Definition udp_items (scratch : nat) (ds : list (list N)) : list item :=
+  map (fun d => IBytes (firstn scratch d)) ds.
+
+Lemma udp_items_fit scratch ds : Forall (fun d => (length d <= scratch)%nat) ds -> udp_items scratch ds = map IBytes ds.
+Proof.
+  unfold udp_items. induction 1 as [|d ds Hd _ IH]; [reflexivity|]. cbn [map]. rewrite IH, firstn_all2 by exact Hd. reflexivity.
+Qed.
+
+Lemma payload_bytes ds : payload (map IBytes ds) = concat ds.
+Proof. induction ds as [|d ds IH]; [reflexivity|]. cbn [map payload concat]. rewrite IH. reflexivity. Qed.
+Lemma no_end_bytes ds : no_end (map IBytes ds) = true.
+Proof. induction ds as [|d ds IH]; [reflexivity|]. cbn. exact IH. Qed.
+Lemma no_empty_bytes ds : Forall (fun d => d <> []) ds -> no_empty (map IBytes ds) = true.
+Proof. induction 1 as [|d ds Hd _ IH]; [reflexivity|]. cbn [map no_empty forallb]. destruct d; [congruence|]. exact IH. Qed.
+
+(* ---------------- enough reads drain everything ---------------- *)
+Definition item_weight (i : item) : nat := match i with IBytes d => S (length d) | _ => 1 end.
+Fixpoint weight (items : list item) : nat := match items with [] => 0 | i :: t => item_weight i + weight t end.
+
+Lemma pull_weight eof items : match pull eof items with
+  | PData d rest => (length d + weight rest < weight items)%nat
+  | PEnd rest => (weight rest < weight items)%nat
+  | PBlocked => True end.
+Proof.
+  induction items as [|i t IH]; cbn [pull]; [exact I|].
+  destruct i as [[|b d]| |]; cbn [weight item_weight length].
+  - destruct eof; [lia|]. destruct (pull false t); try exact I; lia.
+  - lia.
+  - destruct (pull eof t); try exact I; lia.
+  - lia.
+Qed.
+
+(* after any reads at all, what remains is consistent; after at least |buf| + weight reads
+   (or fewer, when the slices are large) nothing remains buffered and no payload is pending *)
+Theorem serve_drains eof : forall sizes buf items,
+  no_end items = true -> (eof = true -> no_empty items = true) ->
+  (length buf + weight items <= length sizes)%nat ->
+  let '(es, buf', items') := serve eof sizes buf items in buf' = [] /\ payload items' = [].
+Proof.
+  induction sizes as [|c cs IH]; intros buf items Hn He Hlen; cbn [serve].
+  - cbn [length] in Hlen. destruct buf; [|cbn in Hlen; lia]. destruct items as [|i t]; [auto|].
+    destruct i; cbn [weight item_weight] in Hlen; lia.
+  - unfold aread. destruct buf as [|b buf0].
+    + pose proof (pull_payload eof items Hn He) as Hp. pose proof (pull_weight eof items) as Hw.
+      destruct (pull eof items) as [d rest| |] eqn:Ep.
+      * destruct Hp as [Hd [Hpay [Hn' He']]].
+        assert (Hl : (length (skipn (S c) d) + weight rest <= length cs)%nat).
+        { rewrite skipn_length. cbn [length] in Hlen. destruct d; [congruence|]. cbn [length] in *. lia. }
+        specialize (IH (skipn (S c) d) rest Hn' He' Hl).
+        destruct (serve eof cs (skipn (S c) d) rest) as [[es b'] it']. exact IH.
+      * destruct Hp.
+      * auto.
+    + set (buf := b :: buf0) in *.
+      assert (Hl : (length (skipn (S c) buf) + weight items <= length cs)%nat).
+      { rewrite skipn_length. subst buf. cbn [length] in *. lia. }
+      specialize (IH (skipn (S c) buf) items Hn He Hl).
+      destruct (serve eof cs (skipn (S c) buf) items) as [[es b'] it']. exact IH.
+Qed.
+
+Lemma awrite_write_all frame : frame <> [] ->
+  fst (awrite frame) = [IBytes frame] /\
+  write_all [WAccept (pred (snd (awrite frame)))] frame = (frame, WOk, []).
+Proof.
+  intros Hne. split; [reflexivity|]. unfold awrite. cbn [snd].
+  destruct frame as [|b t]; [congruence|]. cbn [length pred write_all].
+  rewrite Nat.min_id. cbn [skipn firstn]. rewrite skipn_all, firstn_all. cbn [write_all]. rewrite app_nil_r. reflexivity.
+Qed.
